@@ -375,7 +375,9 @@ def gen_parraise(rng, idle=False, wal=False, **_):
           'types': {t: {'timeout': None} for t in 'ABCD'}, 'handlers': [], 'tasks': []}
     cb = rng.choice([1, 1, 0])                      # where the child lives
     hs = []
-    hs.append({'bus': 0, 'key': 'A', 'kind': 'async', 'prog': [['dispatch', cb, 'C', 0], ['await', 0], ['sleep', rng.choice([0, 1 / 64])]]})
+    late = cb == 1 and rng.random() < 0.3
+    hs.append({'bus': 0, 'key': 'A', 'kind': 'async', 'prog': ([['sleep', 1 / 8]] if late else []) +
+               [['dispatch', cb, 'C', 0], ['await', 0], ['sleep', rng.choice([0, 1 / 64])]]})
     hs.append({'bus': 0, 'key': 'A', 'kind': 'async', 'prog': [['sleep', rng.choice([1 / 64, 1 / 32, 3 / 64])], ['raise']]})
     if rng.random() < 0.5:
         hs.append({'bus': 0, 'key': 'A', 'kind': 'async', 'prog': [['sleep', rng.choice([1 / 64, 1 / 16])]]})
@@ -399,6 +401,10 @@ def gen_parraise(rng, idle=False, wal=False, **_):
         main = [['dispatch', 0, 'A', 0], ['await', 0]]
     if rng.random() < 0.5:
         main += [['dispatch', 0, 'A', 1], ['await', 1]]
+    if late:
+        # the sibling awaits its child late; meanwhile the child's bus gets an event of its own with a slow handler
+        sc['handlers'].append({'bus': 1, 'key': 'B', 'kind': 'async', 'prog': [['sleep', rng.choice([1 / 8, 1 / 4])]]})
+        sc['tasks'].append([['sleep', rng.choice([1 / 16, 3 / 32])], ['dispatch', 1, 'B', 0]])
     if idle:
         # a small history on the parallel bus, later events that evict the first one, then wait_until_idle()
         sc['buses'][0]['maxh'] = rng.choice([2, 3])
@@ -633,6 +639,84 @@ def gen_expects(rng, **_):
     return sc
 
 
+def gen_outbox(rng, **_):
+    """event objects are built in one place and dispatched in another: a handler prepares follow-up events (an outbox) that
+    ordinary code, or the handler of another event, dispatches later; ordinary code prepares events that a handler dispatches"""
+    n = rng.choice([1, 1, 2])
+    sc = {'buses': [{'parallel': rng.random() < 0.2, 'maxh': 50, 'wal': False} for _ in range(n)],
+          'types': {t: {'timeout': None} for t in 'ABCD'}, 'handlers': [], 'tasks': []}
+    kind = rng.choice(['async', 'async', 'sync'])
+    pa = [['make', 'D', 'k0']]
+    if rng.random() < 0.6:
+        pa.append(['make', 'C', 'k1'])
+    if rng.random() < 0.5:
+        pa.append(['dispatch', rng.randrange(n), 'D', 0])
+    if kind == 'async' and rng.random() < 0.4:
+        pa.append(['sleep', rng.choice([0, 1 / 64])])
+    if rng.random() < 0.3:
+        pa.append(['dispatch_made', rng.randrange(n), 'k0'])          # built and dispatched by the same handler
+    sc['handlers'].append({'bus': 0, 'key': 'A', 'kind': kind, 'prog': pa})
+    # the handler of another event flushes (part of) the outbox, and whatever ordinary code prepared
+    pb = [['dispatch_made', rng.randrange(n), rng.choice(['k1', 'k0', 'x0'])]]
+    if rng.random() < 0.5:
+        pb.append(['dispatch_made', rng.randrange(n), rng.choice(['k1', 'x0'])])
+    sc['handlers'].append({'bus': rng.randrange(n), 'key': 'B', 'kind': rng.choice(['async', 'sync']), 'prog': pb})
+    for t in 'CD':
+        if rng.random() < 0.6:
+            sc['handlers'].append({'bus': rng.randrange(n), 'key': t, 'kind': 'async', 'prog': [['sleep', rng.choice([0, 1 / 64])]]})
+    main = [['make', 'C', 'x0']] if rng.random() < 0.5 else []
+    main += [['dispatch', 0, 'A', 0], ['await', 0]]
+    rest = [['dispatch_made', rng.randrange(n), 'k0', 1], ['dispatch', sc['handlers'][1]['bus'], 'B', 2], ['await', 2]]
+    if rng.random() < 0.5:
+        rest = [rest[1], rest[2], rest[0]]
+    main += rest
+    if rng.random() < 0.5:
+        main.append(['await', 1])
+    for b in range(n):
+        if rng.random() < 0.5:
+            main.append(['waitidle', b])
+    sc['tasks'].append(main)
+    return sc
+
+
+def gen_retrychain(rng, **_):
+    """one handler (a wildcard one, or one registered for every type) serves every level of a chain A -> B -> C -> D: it
+    dispatches the event of the next level - fire-and-forget or awaited - and then fails (a retry that re-dispatches on
+    failure) or succeeds; ordinary handlers beside it"""
+    n = rng.choice([1, 1, 2])
+    sc = {'buses': [{'parallel': rng.random() < 0.15, 'maxh': rng.choice([50, 50, None]), 'wal': False} for _ in range(n)],
+          'types': {t: {'timeout': None} for t in 'ABCD'}, 'handlers': [], 'tasks': []}
+    kind = rng.choice(['async', 'async', 'sync'])
+    prog = [['dispatch_lower', 0, 0]]
+    if kind == 'async' and rng.random() < 0.35:
+        prog.append(['await', 0])
+    if kind == 'async' and rng.random() < 0.3:
+        prog.insert(0, ['sleep', rng.choice([0, 1 / 64])])
+    x = rng.random()
+    if x < 0.55:
+        prog.append(['raise'])
+    elif x < 0.65 and kind == 'async':
+        prog.append(['raise_cancelled'])
+    elif x < 0.75:
+        prog.append(['raise_timeout'])
+    if rng.random() < 0.7:
+        sc['handlers'].append({'bus': 0, 'key': '*', 'kind': kind, 'prog': prog})
+    else:
+        sc['handlers'].append({'bus': 0, 'key': 'A', 'keys': ['A', 'B', 'C', 'D'], 'kind': kind, 'prog': prog})
+    for _ in range(rng.randint(0, 2)):
+        sc['handlers'].append({'bus': 0, 'key': rng.choice('ABCD'), 'kind': 'async', 'prog': [['sleep', rng.choice([0, 1 / 64])]]})
+    if n == 2 and rng.random() < 0.5:
+        sc['handlers'].append({'bus': 0, 'key': '*', 'kind': 'forward', 'target': 1, 'prog': []})
+    main = [['dispatch', 0, rng.choice('AAB'), 0]]
+    if rng.random() < 0.6:
+        main.append(['await', 0])
+    main.append(['waitidle', 0])
+    if rng.random() < 0.4:
+        main += [['dispatch', 0, 'A', 1], ['waitidle', 0]]
+    sc['tasks'].append(main)
+    return sc
+
+
 def gen_idle(rng, **_):
     """wait_until_idle() racing a sequential producer (`await bus.dispatch(...)` in a loop) at every phase offset,
     counted in zero-sleeps, plus external bursts: the re-check loop of wait_until_idle is exercised"""
@@ -681,14 +765,14 @@ def gen_parcancel(rng):
     return sc
 
 
-def gen_stop(rng, p_cancel=0.3, **_):
-    if rng.random() < 0.06:
+def gen_stop(rng, p_cancel=0.3, p_wal=0.0, **_):
+    if rng.random() < 0.06 and not p_wal:
         return gen_parcancel(rng)
     """bus 0 is stopped (or its run-loop task cancelled) at a random moment while idle / with a backlog / with a
     handler mid-flight; only the main task dispatches to bus 0 and only before the stop (dispatching to a bus during or
     after stop() is outside the modelled envelope); other buses have awaiting handlers that may drain bus 0's queue"""
     n = rng.randint(1, 3)
-    sc = {'buses': [{'parallel': rng.random() < 0.2, 'maxh': rng.choice([50, 50, None, 4]), 'wal': False} for _ in range(n)],
+    sc = {'buses': [{'parallel': rng.random() < 0.2, 'maxh': rng.choice([50, 50, None, 4]), 'wal': rng.random() < p_wal} for _ in range(n)],
           'types': {t: {'timeout': None} for t in RANK}, 'handlers': [], 'tasks': []}
     sc['buses'][0]['parallel'] = False   # cancelling a parallel activation orphans its sibling handler tasks: not modelled
     others = list(range(1, n))
